@@ -72,7 +72,7 @@ func newSearchModel(c *Ctx, rule string) *searchModel {
 	}
 	m.in.SymLoopLimit = 1
 	m.in.MaxPaths = 100000
-	m.in.Inline = func(fn *ssa.Function) bool { return m.inlineOK[fn] }
+	m.in.Inline = func(fn *ssa.Function) bool { return m.inlineOK[fn] || m.isHelper(fn) }
 	m.in.Hook = m.hook
 	return m
 }
@@ -135,7 +135,7 @@ func (m *searchModel) hook(in *absint.Interp, st *absint.State, site ssa.CallIns
 		k(st, m.opaque(st, fmt.Sprintf("dyn#%d", id), cc.Signature(), args))
 		return true
 	}
-	if m.inlineOK[callee] {
+	if m.inlineOK[callee] || m.isHelper(callee) {
 		return false
 	}
 	switch {
@@ -268,15 +268,108 @@ func recursiveSearchFuncs(c *Ctx, m *searchModel) []*ssa.Function {
 // rootFact reports whether the path established that the node is the root of the search: a true
 // comparison of the board's ply with a field of the run object (set once by the public Search
 // method), or a true boolean parameter/field named like "root".
-func rootFact(st *absint.State) (isRoot bool, known bool) {
+func rootFact(st *absint.State, recv string) (isRoot bool, known bool) {
 	for _, f := range st.Facts {
 		s := vstrOf(f.Cond)
 		switch {
-		case strings.HasPrefix(s, "==(") && strings.Contains(s, "Ply(") && strings.Contains(s, "(m)") || strings.HasPrefix(s, "==(") && strings.Contains(s, "Ply(") && strings.Contains(strings.ToLower(s), "root"):
+		case strings.HasPrefix(s, "==(") && strings.Contains(s, "Ply(") && strings.Contains(s, "("+recv+")") || strings.HasPrefix(s, "==(") && strings.Contains(s, "Ply(") && strings.Contains(strings.ToLower(s), "root"):
 			return f.Truth, true
 		case strings.ToLower(s) == "root" || strings.ToLower(s) == "isroot":
 			return f.Truth, true
 		}
 	}
 	return false, false
+}
+
+// isHelper: a method of the same run object as the function being analysed, in the same package,
+// that is not itself a (recursive) search function: a piece of the search function that was
+// split off. It is analysed inline, so rules see the same events wherever the code sits.
+func (m *searchModel) isHelper(fn *ssa.Function) bool {
+	if fn == nil || m.self == nil || fn == m.self || m.children[fn] || fn.Blocks == nil {
+		return false
+	}
+	if fn == m.push || fn == m.pop || fn == m.adjudicate || fn == m.isCancelled {
+		return false
+	}
+	r1, r2 := fn.Signature.Recv(), m.self.Signature.Recv()
+	if r1 == nil || r2 == nil || fn.Pkg != m.self.Pkg {
+		return false
+	}
+	if !types.Identical(r1.Type(), r2.Type()) {
+		return false
+	}
+	// it must not (transitively, within helpers) be recursive
+	return !m.reaches(fn, fn, map[*ssa.Function]bool{})
+}
+
+func (m *searchModel) reaches(from, target *ssa.Function, seen map[*ssa.Function]bool) bool {
+	if seen[from] {
+		return false
+	}
+	seen[from] = true
+	for _, b := range from.Blocks {
+		for _, ins := range b.Instrs {
+			if call, ok := ins.(ssa.CallInstruction); ok {
+				f := call.Common().StaticCallee()
+				if f == nil {
+					continue
+				}
+				if f == target {
+					return true
+				}
+				r1, r2 := f.Signature.Recv(), from.Signature.Recv()
+				if r1 != nil && r2 != nil && f.Pkg == from.Pkg && types.Identical(r1.Type(), r2.Type()) && f.Blocks != nil {
+					if m.reaches(f, target, seen) {
+						return true
+					}
+				}
+			}
+		}
+	}
+	return false
+}
+
+// helpersOf lists the helper methods (see isHelper) a search function calls, transitively.
+func (m *searchModel) helpersOf(fn *ssa.Function) []*ssa.Function {
+	saved := m.self
+	m.self = fn
+	defer func() { m.self = saved }()
+	var res []*ssa.Function
+	seen := map[*ssa.Function]bool{fn: true}
+	work := []*ssa.Function{fn}
+	for len(work) > 0 {
+		f := work[0]
+		work = work[1:]
+		for _, b := range f.Blocks {
+			for _, ins := range b.Instrs {
+				if call, ok := ins.(ssa.CallInstruction); ok {
+					g := call.Common().StaticCallee()
+					if g != nil && !seen[g] && m.isHelper(g) {
+						seen[g] = true
+						res = append(res, g)
+						work = append(work, g)
+					}
+				}
+			}
+		}
+	}
+	return res
+}
+
+// scoreParams names the window and depth parameters of a search function by type and order:
+// the first two Score-typed parameters are (alpha, beta), the int parameter is the depth.
+func scoreParams(fn *ssa.Function) (alpha, beta, depth string) {
+	for _, p := range fn.Params {
+		if n := namedOf(p.Type()); n != nil && n.Obj().Name() == "Score" {
+			if alpha == "" {
+				alpha = p.Name()
+			} else if beta == "" {
+				beta = p.Name()
+			}
+		}
+		if p.Type().String() == "int" {
+			depth = p.Name()
+		}
+	}
+	return
 }
